@@ -66,8 +66,22 @@ def cpv(v):
 
 
 # ------------------------------------------------------------------------------------------------ implementation side
+OUTPARAM = {"converter.decode_bits": 2, "converter.encode_dict": 2}     # functions that change this argument in place and return nothing
+
+
 def resolve(qual):
     parts = qual.split(".")
+    if parts[0] == "converter":
+        mod = importlib.import_module("pyscsi.utils.converter")
+        f = getattr(mod, parts[1])
+        if qual in OUTPARAM:
+            def wrapped(*args, _f=f, _i=OUTPARAM[qual]):
+                r = _f(*args)
+                if r is not None:
+                    raise RuntimeError("returned a value")
+                return args[_i]           # the model returns the argument the real function changed in place
+            return wrapped
+        return f
     mod = importlib.import_module("pyscsi.pyscsi." + parts[0])
     obj = mod
     for p in parts[1:]:
@@ -194,6 +208,97 @@ def gen_cases(seed, tier, summary):
         n = rng.choice([0, 1, 2, 3, 4, 5, 7, 8, 9, 15, 16, 17, 223, 224])
         cases.append(dict(fn="scsi_cdb_persistentreservein._pad4_len", args=[{"__b": bytes(rng.randrange(1, 256) for _ in range(n)).hex()}], kind="pad4"))
     return [c for c in cases if c["fn"] in funcs]
+
+
+def gen_conv_cases(seed, tier):
+    """pyscsi/utils/converter.py: widths / values / byte strings; well-formed and arbitrary layouts, in-range and out-of-range values,
+    buffers that are too short, values of the wrong kind"""
+    from corr import converter as cc
+    rng = random.Random(seed ^ 0xC0DEC)
+    cases = []
+    n = 150 if tier == "quick" else 1500
+    for _ in range(n):
+        w = rng.choice([0, 1, 2, 3, 4, 8, 9, 16])
+        v = rng.choice([0, 1, 255, 256, (1 << (8 * w)) - 1 if w else 0, rng.getrandbits(8 * w + 3)])
+        cases.append(dict(fn="converter.scsi_int_to_ba", args=[v, w], kind="conv-i2b"))
+        if rng.random() < 0.2:
+            cases.append(dict(fn="converter.scsi_int_to_ba", args=[v], kind="conv-i2b-default"))
+        b = bytes(rng.randrange(256) for _ in range(rng.choice([0, 1, 2, 3, 4, 8, 9, 17])))
+        cases.append(dict(fn="converter.scsi_ba_to_int", args=[{"__b": b.hex()}], kind="conv-b2i"))
+
+    def table(L):
+        return {"__d": [[k, ([e[1], e[2]] if e[0] == "mask" else [{1: "b", 2: "w", 4: "dw"}[e[1]], e[2], e[3]])] for k, e in L]}
+
+    def val(v):
+        return v[1] if v[0] == "i" else {"__b": bytes(v[1]).hex()}
+    for _ in range(n):
+        nb = rng.randint(1, 20)
+        valid = rng.random() < 0.7
+        L = cc.gen_layout(rng, nb, valid=valid)
+        if not L:
+            continue
+        buf = bytes(rng.randrange(256) for _ in range(nb if rng.random() < 0.8 else rng.randint(0, nb)))
+        cur = {"__d": [["earlier", 7]] if rng.random() < 0.3 else []}
+        cases.append(dict(fn="converter.decode_bits", args=[{"__b": buf.hex()}, table(L), cur], kind="conv-decode" + ("" if valid else "-arbitrary")))
+        d = [[k, val(cc.field_value(rng, e, in_range=rng.random() < 0.85))] for k, e in L if rng.random() < 0.8]
+        if rng.random() < 0.2:
+            d.append(["not_in_table", 5])
+        if rng.random() < 0.1 and d:
+            d[rng.randrange(len(d))][1] = rng.choice([{"__b": "0102"}, 3, None])       # a value of the wrong kind
+        rng.shuffle(d)
+        cases.append(dict(fn="converter.encode_dict", args=[{"__d": d}, table(L), {"__b": buf.hex()}], kind="conv-encode" + ("" if valid else "-arbitrary")))
+    return cases
+
+
+def run_conv(rep, tier, seed, summary):
+    """the regenerated pyscsi/utils/converter.py (Gen/PyConv.v, conv_program) under Model/Py.v vs the real functions"""
+    import re
+    import vlib
+    cases = gen_conv_cases(seed, tier)
+    res = []
+    for i in range(0, len(cases), 400):
+        res += vlib.run_impl("corr/pyfuncs.py", [dict(fn=c["fn"], args=c["args"]) for c in cases[i:i + 400]], args=["--impl"], timeout=900)
+    rows, idx = [], []
+    for j, (c, r) in enumerate(zip(cases, res)):
+        if "skip" in r:
+            continue
+        exp = "Ok (%s)" % cpv(r["ok"]) if "ok" in r else "Raise %s" % vlib.cexn(r["exn"])
+        rows.append('(%s, [%s], %s)' % (vlib.cstr(c["fn"]), "; ".join(cpv(a) for a in c["args"]), exp))
+        idx.append(j)
+    with vlib.Lock():
+        ok, log, _ = vlib.coq_make(["Model/PyCorr.vo", "Gen/PyConv.vo"])
+    if not ok:
+        rep.oblig("build:Model/PyCorr.vo Gen/PyConv.vo", False, vlib.coq_first_error(log))
+        return [dict(case=None)]
+    prelude = PRELUDE.replace("Gen.Tables Gen.PyFuncs", "Gen.PyConv")
+    shards, SH = [], 300
+    for s0 in range(0, len(rows), SH):
+        shards.append(("cases_pyconv_%d" % (s0 // SH), prelude + "Definition cases : list pycase := [\n  %s].\n"
+                       "Eval vm_compute in (mismatches (py_check nil conv_program) cases).\n"
+                       "Eval vm_compute in (mismatches (py_modelled nil conv_program) cases).\n" % ";\n  ".join(rows[s0:s0 + SH])))
+    outs = vlib.coqc_many(shards, timeout=900)
+    bad, unmod = [], 0
+    for k, (name, _) in enumerate(shards):
+        rc, out = outs[name]
+        flat = re.sub(r"\s+", " ", out)
+        ms = re.findall(r"= (\[[^\]]*\]|nil) ?: list N", flat)
+        if rc != 0 or len(ms) != 2:
+            rep.oblig("correspondence:pyconv shard %s compiles" % name, False, out[-800:])
+            bad.append(dict(case=None, error=out[-600:]))
+            continue
+        for j in [int(x) for x in re.findall(r"\d+", ms[0])]:
+            g = idx[k * SH + j]
+            bad.append(dict(case=cases[g], impl=res[g]))
+        unmod += len(re.findall(r"\d+", ms[1]))
+    dist = {}
+    for c, r in zip(cases, res):
+        key = "%s:%s" % (c["kind"], "ok" if "ok" in r else r.get("exn", "skip"))
+        dist[key] = dist.get(key, 0) + 1
+    rep.suite("regenerated pyscsi/utils/converter.py (Gen/PyConv.v under Model/Py.v) vs the real scsi_int_to_ba / scsi_ba_to_int / decode_bits / "
+              "encode_dict: widths, values, well-formed and arbitrary layouts, short buffers, out-of-range values, values of the wrong kind",
+              len(rows), len(bad), samples=[dict(fn=cases[0]["fn"], args=str(cases[0]["args"])[:120], impl=str(res[0])[:120])],
+              distribution=dict(outcomes=dist, model_unmodelled=unmod))
+    return bad
 
 
 PRELUDE = """From Coq Require Import String ZArith.
